@@ -42,6 +42,8 @@ struct V2Facts {
 }
 
 fn verify_v2(req: &RawRequest, secrets: &HashMap<String, String>) -> V2Facts {
+    // (HTTP/2: the authority of the request target stands for the missing Host header)
+    let req = &http1_form(req);
     let mk = |e: Expect| V2Facts { expect: e, expires: None };
     let (path, q) = split_uri(&req.uri);
     if pct_decode(path).is_none() {
@@ -486,6 +488,10 @@ pub fn run(ctx: &RunCtx) -> i32 {
                 sign_query(&mut req, ak, &secrets[ak], exp);
             } else {
                 sign_header(&mut req, ak, &secrets[ak]);
+            }
+            // one request in six travels in its HTTP/2 form (the virtual-host bucket is then in the authority)
+            if g.chance(1, 6) {
+                to_http2(&mut req);
             }
             let case = Case { req: req.clone(), op: "base".into(), mode: mode.into(), vhost, secrets: secrets.clone() };
             judge(&rt, r, &case);
